@@ -188,6 +188,7 @@ type ProxyOpts struct {
 	DialTimeout        time.Duration
 	ShortDial          bool // (fault laboratory) short dial time-out, two attempts
 	ShutdownTimeout    time.Duration
+	NoShutdownTimeout  bool        // shutdown-timeout 0: the drain has no time limit
 	ShutdownSignals    []os.Signal // signals that abort the drain (forwarder's default: INT, TERM, QUIT)
 
 	WrapDial func(DialFunc) DialFunc
@@ -348,7 +349,9 @@ func StartProxy(o ProxyOpts) (*ProxyInst, error) {
 	if o.ShutdownSignals != nil {
 		cfg.ShutdownSignals = o.ShutdownSignals
 	}
-	if o.ShutdownTimeout > 0 {
+	if o.NoShutdownTimeout {
+		cfg.ShutdownTimeout = 0
+	} else if o.ShutdownTimeout > 0 {
 		cfg.ShutdownTimeout = o.ShutdownTimeout
 	}
 	if o.Upstream != "" {
